@@ -107,7 +107,7 @@ def mc_module(name, spec_cls, real, latlon, temporal, size, base="Params"):
         if small:
             lenv = {16, 256}
         custom["len_scale"] = [_b(32, 480, True, True)]
-        custom["opt"] = [_b(0, 64, True, True)]
+        custom["opt"] = [_b(0, 48, True, True)]
         custom["var"] = [_b(32, 96, True, True)]   # tight: a change of the Hurst coefficient alone leaves it
     if micro:
         lenv, anisv, varv, nugv, resv, angv, bad = ({128} if spec_cls != "TPLH" else {256}), {32}, {128}, {64}, ({128} if spec_cls != "TPLH" else {64}), {1}, {0}
@@ -476,6 +476,226 @@ def with_depth(mod, depth):
     return mod.replace("====", 'DepthBound == TLCGet("level") <= %d\n====' % depth)
 
 
+# ---------------------------------------------------------------------------
+# code -> spec: random executions of the real code validated by TraceParams.tla
+
+TRACE_CLASSES = [("Plain", "Exponential"), ("Plain", "Gaussian"), ("OptFixed", "Stable"), ("OptDim", "JBessel"),
+                 ("OptDim", "SuperSpherical"), ("TPL", "TPLGaussian"), ("TPLH", "TPLGaussian:H")]
+_UNANG = {v: k for k, v in ANG.items()}
+
+
+def _units(x):
+    if np.isinf(x):
+        return INF if x > 0 else -INF
+    q = x * U
+    if abs(q - round(q)) > 1e-7:
+        raise OffLattice(x)
+    return int(round(q))
+
+
+class OffLattice(Exception):
+    pass
+
+
+def project(rm):
+    """Projection of the real model onto the spec state (units of 1/64, angle tokens)."""
+    m = rm.m
+    ab = m.arg_bounds
+    bnd = {}
+    for a in ("var", "len_scale", "nugget", "anis", "opt"):
+        if a == "opt" and not rm.optname:
+            bnd[a] = {"lo": 0, "hi": INF, "lc": True, "hc": True}
+            continue
+        b = list(ab[rm.optname if a == "opt" else a])
+        if len(b) == 2:
+            b.append("cc")
+        conv = (lambda x: int(round(rm.optq(x))) if not np.isinf(x) else (INF if x > 0 else -INF)) if a == "opt" else _units
+        lo, hi = conv(float(b[0])), conv(float(b[1]))
+        if a == "opt" and "lo_real" in rm.ob:
+            lo = rm.ob["lo"] if float(b[0]) == rm.ob["lo_real"] else lo
+            hi = rm.ob["hi"] if float(b[1]) == rm.ob["hi_real"] else hi
+        bnd[a] = {"lo": lo, "hi": hi, "lc": b[2][0] == "c", "hc": b[2][1] == "c"}
+    optq = 0
+    if rm.optname:
+        x = getattr(m, rm.optname)
+        optq = int(round(rm.optq(x)))
+        if "lo_real" in rm.ob and x == rm.ob["lo_real"]:
+            optq = rm.ob["lo"]
+        if "hi_real" in rm.ob and x == rm.ob["hi_real"]:
+            optq = rm.ob["hi"]
+    return {"dim": int(m.dim), "len": _units(float(m.len_scale)), "anis": [_units(float(a)) for a in np.atleast_1d(m.anis)],
+            "angles": [_UNANG[round(float(a), 6)] for a in np.atleast_1d(m.angles)],
+            "varRaw": _units(float(m.var_raw)), "nugget": _units(float(m.nugget)),
+            "rescale": _units(float(m.rescale) / rm._defres), "opt": optq, "bnd": bnd, "custom": sorted(rm.custom)}
+
+
+def random_executions(spec_cls, real, optname, fixed, latlon, temporal, rng, n_exec, n_ops):
+    """Random assignments on real models (no TLC involved); returns the list of logged events."""
+    ob = OPTB.get(real, {})
+    tplh = spec_cls == "TPLH"
+    lens = [16, 64, 256] if tplh else [16, 32, 64, 128, 256]
+    ress = [64] if tplh else [64, 128, 256]
+    varv = [32, 64, 128, 256]
+    custom_b = {"var": (32, 96) if tplh else (32, 224), "len_scale": (32, 480) if tplh else (64, 192), "nugget": (0, 128), "anis": (32, 96)}
+    if spec_cls == "OptDim":
+        custom_b["opt"] = (0, 256)
+    elif spec_cls == "TPL":
+        custom_b["opt"] = (0, 128)
+    elif spec_cls == "TPLH":
+        custom_b["opt"] = (0, 48)
+    elif spec_cls == "OptFixed":
+        custom_b["opt"] = (ob["lo"] + 32, ob["lo"] + 160)
+    dims = [4 if temporal else 3] if latlon else ([2, 3, 4] if temporal else [1, 2, 3, 4])
+    events = []
+
+    def noang(d):
+        return d * (d - 1) // 2
+
+    def fresh_state():
+        d = rng.choice(dims)
+        optv = sorted(ob.get("vals", {0}))
+        if spec_cls == "OptDim":
+            lo = 32 * (d + ob["off"])
+            optv = [v for v in optv if v >= lo] or [lo + 64]
+        elif spec_cls != "Plain":
+            optv = [v for v in optv if (v > ob["lo"] or (ob["lc"] and v == ob["lo"])) and (v < ob["hi"] or (ob["hc"] and v == ob["hi"]))]
+        anis = [rng.choice([32, 64, 128]) for _ in range(d - 1)]
+        if latlon:
+            anis[:2] = [64, 64]
+        nang = noang(d)
+        ang = [rng.choice([0, 1, 2]) for _ in range(nang)]
+        if latlon:
+            ang = [0] * nang
+        elif temporal:
+            ang = [a if i < noang(d - 1) else 0 for i, a in enumerate(ang)]
+        return {"dim": d, "len": rng.choice(lens), "anis": anis, "angles": ang, "varRaw": rng.choice([64, 128]),
+                "nugget": rng.choice([0, 32, 64]), "rescale": rng.choice(ress), "opt": rng.choice(optv) if optv else 0,
+                "custom": [], "bnd": None}
+
+    for _x in range(n_exec):
+        st = fresh_state()
+        st["bnd"] = {}
+        rm = RealModel(real, optname, fixed, latlon, temporal, dict(st, custom=[]))
+        rm.custom = set()
+        events.append({"name": "Init", "post": project(rm), "raised": False})
+        for _i in range(n_ops):
+            kind = rng.choice(["SetVar", "SetNugget", "SetLenScalar", "SetLenList", "SetAnis", "SetAngles", "SetDim", "SetRescale",
+                               "SetBounds", "SetBounds"] + (["SetOpt", "SetOpt"] if optname else []) +
+                              (["SetVarRaw"] if spec_cls in ("TPL", "TPLH") else []) + (["SetIntScale"] if real in INTSCALE_OK else []))
+            op = {"name": kind}
+            if kind in ("SetVar", "SetVarRaw"):
+                op["v"] = rng.choice(varv + [0, -64])
+            elif kind == "SetNugget":
+                op["v"] = rng.choice([0, 32, 64, 128, -64])
+            elif kind == "SetLenScalar":
+                op["v"] = rng.choice(lens + [0])
+            elif kind == "SetLenList":
+                op["s"] = [rng.choice(lens) for _ in range(rng.choice([2, 3, 4]))]
+                if tplh and "len_scale" in rm.custom:
+                    continue
+            elif kind == "SetAnis":
+                op["s"] = [rng.choice([16, 32, 64, 128, 256, 0]) for _ in range(rng.choice([1, 2, 3]))]
+            elif kind == "SetAngles":
+                op["s"] = [rng.choice([0, 1, 2]) for _ in range(rng.choice([1, 2, 3, 6]))]
+            elif kind == "SetDim":
+                op["v"] = rng.choice([d for d in (1, 2, 3, 4) if not temporal or d >= 2])
+            elif kind == "SetRescale":
+                if spec_cls in ("TPL", "TPLH"):
+                    continue    # the variance follows rescale: left to the TLC-generated behaviours
+                op["v"] = rng.choice(ress)
+            elif kind == "SetOpt":
+                op["v"] = rng.choice(sorted(ob.get("vals", {0})))
+            elif kind == "SetIntScale":
+                if "len_scale" in rm.custom:
+                    continue    # unmodelled combination (intermediate length scales vs custom bounds)
+                op["s"] = [rng.choice([32, 64, 128, 0] if k == 0 else [32, 64, 128]) for k in range(rng.choice([1, 1, 2, 3]))]
+            elif kind == "SetBounds":
+                a = rng.choice(sorted(custom_b))
+                if latlon and a == "anis":
+                    continue
+                lo, hi = custom_b[a]
+                op.update(arg=a, b={"lo": lo, "hi": hi, "lc": True, "hc": True}, check=rng.random() < 0.7)
+                if not op["check"]:
+                    # the unchecked form is only modelled when the current value is inside the new bounds
+                    pr = project(rm)
+                    cur = {"var": None, "len_scale": [pr["len"]], "nugget": [pr["nugget"]], "anis": pr["anis"], "opt": [pr["opt"]]}[a]
+                    if cur is None:
+                        cur = [_units(float(rm.m.var))]
+                    if not all(lo <= c <= hi for c in cur):
+                        op["check"] = True
+            err = rm.apply(op)
+            if kind == "SetBounds" and err is None:
+                rm.custom.add(op["arg"])
+            try:
+                post = project(rm) if err is None else events[-1]["post"]
+            except (OffLattice, KeyError):
+                # value outside the modelled lattice: abandon this execution
+                events.append({"name": "Init", "post": events[-1]["post"], "raised": False}) if False else None
+                break
+            ev = dict(op, post=post, raised=err is not None)
+            events.append(ev)
+            if err is not None:
+                break   # a rejected assignment ends the execution (the spec says nothing about the limbo state)
+    return events
+
+
+def trace_validation(rep, sc, tier, rng):
+    import json
+
+    n_exec, n_ops = (60, 25) if tier == "quick" else (600, 40)
+    jobs, meta = [], {}
+    for spec_cls, real in TRACE_CLASSES:
+        _n, optname, fixed = next(r for r in CLASSES[spec_cls] if r[0] == real)
+        for latlon, temporal in COMBOS:
+            tag = "%s_%d%d" % (real.replace(":", "_"), latlon, temporal)
+            evs = random_executions(spec_cls, real, optname, fixed, latlon, temporal, rng, n_exec, n_ops)
+            fn = sc.write("trace_%s.json" % tag, json.dumps(evs))
+            name = "TR_" + tag
+            mod, cfg = mc_module(name, spec_cls, real, latlon, temporal, "quick", base="TraceParams")
+            mod = mod.replace("McMaxCustom == 1", "McMaxCustom == 5")
+            sc.write(name + ".tla", mod)
+            cfgt = cfg + "SPECIFICATION TraceSpec\nINVARIANT TraceMatches\nINVARIANT NotStuck\nPOSTCONDITION TraceAccepted\nCHECK_DEADLOCK FALSE\n"
+            jobs.append((tag, sc, name, cfgt, dict(workers=1, timeout=1800, env={"TRACE_FILE": fn})))
+            meta[tag] = (spec_cls, real, latlon, temporal, evs)
+    # binding demonstration: one corrupted logged field must make TLC reject the trace
+    tag0 = jobs[0][0]
+    evs0 = json.loads(json.dumps(meta[tag0][4]))
+    k = next(i for i in range(len(evs0) // 2, len(evs0)) if evs0[i]["name"] != "Init" and not evs0[i]["raised"])
+    evs0[k]["post"]["len"] += 64
+    fn0 = sc.write("trace_corrupt.json", json.dumps(evs0))
+    jobs.append(("__corrupt__", sc, jobs[0][2], jobs[0][3], dict(workers=1, timeout=1800, env={"TRACE_FILE": fn0})))
+    res = tlc.run_many(jobs, parallel=8)
+    rc = res.pop("__corrupt__")
+    tlc.must_pass(rc, "corrupted trace")
+    if rc.error is None:
+        raise tlc.MachineryError("binding not demonstrated: a corrupted trace was accepted by TraceParams")
+    rep.extra["binding_demonstration"] = "a recorded execution with one corrupted field (len_scale of event %d) is rejected: %s %s" % ((k,) + rc.error)
+    total_events = total_exec = 0
+    for tag, r in sorted(res.items()):
+        spec_cls, real, latlon, temporal, evs = meta[tag]
+        tlc.must_pass(r, "trace " + tag)
+        rep.add_tlc("TraceParams[%s,%s]" % (real, cfgname(latlon, temporal)), r)
+        total_events += len(evs)
+        total_exec += sum(1 for e in evs if e["name"] == "Init")
+        if r.error:
+            tr = tlc.error_trace(r)
+            l = tr[-1]["state"].get("l", 0) if tr else 0
+            idx = max(0, l - 2) if r.error[1] == "TraceMatches" else max(0, l - 1)
+            start = max(i for i in range(idx + 1) if evs[i]["name"] == "Init")
+            bad = evs[idx]
+            rep.violation("trace:%s:%s:%s:%s" % (bad["name"], spec_cls, cfgname(latlon, temporal), r.error[1]),
+                          "%s/%s: recorded execution is not a behaviour of Params.tla: event #%d %s (%s) is not explained by the spec"
+                          % (real, cfgname(latlon, temporal), idx, {k: v for k, v in bad.items() if k not in ("post",)}, r.error[1]),
+                          {"class": real.split(":")[0], "latlon": latlon, "temporal": temporal, "events": evs[start:idx + 1],
+                           "spec_state": tr[-1]["state"] if tr else None})
+    rep.traces += total_exec
+    rep.extra["trace_validation"] = {"executions": total_exec, "events": total_events,
+                                     "note": "random executions of real models (not generated by TLC) accepted by TraceParams.tla"}
+    if meta:
+        ev0 = next(iter(meta.values()))[4]
+        rep.sample({"recorded_execution": [{k: v for k, v in e.items() if k != "post"} for e in ev0[:8]]}, cap=9)
+
+
 def run(pid, tier, seed, replay=None):
     rep = Report(pid, tier, seed)
     rng = random.Random(seed)
@@ -545,6 +765,7 @@ def run(pid, tier, seed, replay=None):
                     rep.violation(key, what, rp)
                 rep.extra.setdefault("steps_executed_on_real_models", 0)
                 rep.extra["steps_executed_on_real_models"] += res["steps"]
+        trace_validation(rep, sc, tier, rng)
     return rep.finish(
         level="model_checking",
         rule="behaviours = edge cover of TLC's dumped state graph: every transition reachable by 1 operation (full value domain) and by 2 operations "
